@@ -26,6 +26,7 @@ func checkC19CopyOnWrite(c *Ctx) {
 	p := c.pkg(adtP)
 	envFields := map[string]bool{"Up": true, "Vertex": true, "DynamicLabel": true, "CompID": true}
 	n := 0
+	envOrd := map[string]int{}
 	for _, f := range c.funcs(p) {
 		info := f.Info()
 		ast.Inspect(f.Body, func(x ast.Node) bool {
@@ -58,6 +59,7 @@ func checkC19CopyOnWrite(c *Ctx) {
 					continue
 				}
 				n++
+				envOrd[f.Name+sel.Sel.Name]++
 				okw := false
 				det := "base is " + exprString(sel.X)
 				if id, isID := ast.Unparen(sel.X).(*ast.Ident); isID && !isPtr {
@@ -74,7 +76,7 @@ func checkC19CopyOnWrite(c *Ctx) {
 						}
 					}
 				}
-				c.check("cow.environment-written-on-copy", fmt.Sprintf("%s#%s%d", f.Name, sel.Sel.Name, n), l.Pos(), okw,
+				c.check("cow.environment-written-on-copy", fmt.Sprintf("%s#%s%d", f.Name, sel.Sel.Name, envOrd[f.Name+sel.Sel.Name]), l.Pos(), okw,
 					"adt.Environment."+sel.Sel.Name+" may be assigned only on a local value copy of the Environment (`e := *env; e."+sel.Sel.Name+" = …; c.Env = &e`): the Environment a conjunct points to is shared with finalized vertices that other goroutines read; "+det)
 			}
 			return true
@@ -84,6 +86,8 @@ func checkC19CopyOnWrite(c *Ctx) {
 
 	// (2) shallow copies of Vertex
 	m := 0
+	ord := map[string]int{}
+	next := func(fn, fld, kind string) int { ord[fn+"/"+fld+"/"+kind]++; return ord[fn+"/"+fld+"/"+kind] }
 	for _, pk := range []string{adtP, "cue", "internal/core/export", "internal/value"} {
 		pp := c.pkgOpt(pk)
 		if pp == nil {
@@ -107,8 +111,11 @@ func checkC19CopyOnWrite(c *Ctx) {
 					switch y := ast.Unparen(r).(type) {
 					case *ast.StarExpr:
 						if t := info.TypeOf(y); t != nil {
-							if nt, ok := t.(*types.Named); ok && nt.Obj().Name() == "Vertex" {
-								copies[lo] = true
+							// any struct of the evaluator's data model (Vertex, Disjunction, Conjunction, ...)
+							if nt, ok := t.(*types.Named); ok && nt.Obj().Pkg() != nil && strings.HasSuffix(nt.Obj().Pkg().Path(), adtP) {
+								if _, isStruct := nt.Underlying().(*types.Struct); isStruct {
+									copies[lo] = true
+								}
 							}
 						}
 					case *ast.UnaryExpr:
@@ -146,7 +153,27 @@ func checkC19CopyOnWrite(c *Ctx) {
 				}
 				return true
 			})
-			isFresh := func(e ast.Expr, fld string) bool {
+			aliasLocals := map[string]map[types.Object]bool{}
+			// slice field names that occur on the source or a copy in this function
+			var sliceFields []string
+			{
+				seenF := map[string]bool{}
+				ast.Inspect(f.Body, func(z ast.Node) bool {
+					if s2, ok := z.(*ast.SelectorExpr); ok {
+						if o := identObj(info, s2.X); o != nil && (srcOf[o] || copies[o] || ptrTo[o] != nil) {
+							if t := info.TypeOf(s2); t != nil {
+								if _, isSlice := t.Underlying().(*types.Slice); isSlice && !seenF[s2.Sel.Name] {
+									seenF[s2.Sel.Name] = true
+									sliceFields = append(sliceFields, s2.Sel.Name)
+								}
+							}
+						}
+					}
+					return true
+				})
+			}
+			var isFresh func(e ast.Expr, fld string) bool
+			isFresh = func(e ast.Expr, fld string) bool {
 				e = ast.Unparen(e)
 				if isNilIdent(e) {
 					return true
@@ -170,17 +197,56 @@ func checkC19CopyOnWrite(c *Ctx) {
 						}
 					}
 				}
-				// anything that mentions the same field of the source or of a copy aliases it
+				// anything that mentions the same field of the source or of a copy
+				// (directly or through a local that was assigned from it) aliases it
 				alias := false
 				ast.Inspect(e, func(z ast.Node) bool {
-					if s2, ok := z.(*ast.SelectorExpr); ok && s2.Sel.Name == fld {
-						if o := identObj(info, s2.X); o != nil && (srcOf[o] || copies[o] || ptrTo[o] != nil) {
+					switch s2 := z.(type) {
+					case *ast.SelectorExpr:
+						if s2.Sel.Name == fld {
+							if o := identObj(info, s2.X); o != nil && (srcOf[o] || copies[o] || ptrTo[o] != nil) {
+								alias = true
+							}
+						}
+					case *ast.Ident:
+						if o := info.Uses[s2]; o != nil && aliasLocals[fld][o] {
 							alias = true
 						}
 					}
 					return true
 				})
 				return !alias
+			}
+			// locals that alias a slice field of the source: v := x.F; v = v[:n]
+			for round := 0; round < 3; round++ {
+				ast.Inspect(f.Body, func(x ast.Node) bool {
+					as, ok := x.(*ast.AssignStmt)
+					if !ok || len(as.Lhs) != len(as.Rhs) {
+						return true
+					}
+					for i, l := range as.Lhs {
+						id, isID := l.(*ast.Ident)
+						if !isID {
+							continue
+						}
+						lo := identObj(info, id)
+						if lo == nil {
+							continue
+						}
+						if _, isSlice := info.TypeOf(as.Rhs[i]).Underlying().(*types.Slice); !isSlice {
+							continue
+						}
+						for _, fld := range sliceFields {
+							if !isFresh(as.Rhs[i], fld) {
+								if aliasLocals[fld] == nil {
+									aliasLocals[fld] = map[types.Object]bool{}
+								}
+								aliasLocals[fld][lo] = true
+							}
+						}
+					}
+					return true
+				})
 			}
 			fieldFresh := map[string]bool{}
 			fieldAssigned := map[string]bool{}
@@ -235,8 +301,8 @@ func checkC19CopyOnWrite(c *Ctx) {
 					}
 					m++
 					okw := fieldAssigned[sel.Sel.Name] && fieldFresh[sel.Sel.Name]
-					c.check("cow.vertex-copy-elements-written-on-own-array", fmt.Sprintf("%s#%s%d", f.Name, sel.Sel.Name, m), l.Pos(), okw,
-						"an element of a slice field of a shallow Vertex copy is written: the field must first be replaced by a fresh slice (make / slices.Clone / append to an empty slice); `slices.Clip(v."+sel.Sel.Name+")`, `v."+sel.Sel.Name+"[:n]` or the inherited field share the original's backing array, so the write modifies the shared (possibly finalized) vertex under other goroutines' reads")
+					c.check("cow.vertex-copy-elements-written-on-own-array", fmt.Sprintf("%s#%s%d", f.Name, sel.Sel.Name, next(f.Name, sel.Sel.Name, "w")), l.Pos(), okw,
+						"an element of a slice field of a shallow copy of an adt struct is written: the field must first be replaced by a fresh slice (make / slices.Clone / append to an empty slice); `slices.Clip(v."+sel.Sel.Name+")`, `v."+sel.Sel.Name+"[:n]` or the inherited field share the original's backing array, so the write modifies the shared (possibly finalized) vertex under other goroutines' reads")
 				}
 				return true
 			})
@@ -264,8 +330,8 @@ func checkC19CopyOnWrite(c *Ctx) {
 						}
 						return true
 					})
-					c.check("cow.vertex-copy-slices-replaced", fmt.Sprintf("%s#%s%d", f.Name, sel.Sel.Name, m), l.Pos(), !bad,
-						"a shallow copy of a Vertex (`x := *v`) shares v's slice backing arrays: its slice fields may be replaced but not re-sliced in place (`x."+sel.Sel.Name+" = x."+sel.Sel.Name+"[:0]` followed by append overwrites the shared vertex's elements)")
+					c.check("cow.vertex-copy-slices-replaced", fmt.Sprintf("%s#%s%d", f.Name, sel.Sel.Name, next(f.Name, sel.Sel.Name, "r")), l.Pos(), !bad,
+						"a shallow copy of an adt struct (`x := *v`) shares v's slice backing arrays: its slice fields may be replaced but not re-sliced in place (`x."+sel.Sel.Name+" = x."+sel.Sel.Name+"[:0]` followed by append overwrites the shared vertex's elements)")
 				}
 				return true
 			})
